@@ -11,6 +11,11 @@ Proof.
   intros (H1 & H2 & H3). apply String.eqb_neq in H1, H2, H3. now rewrite H1, H2, H3.
 Qed.
 
+Lemma clean_go_push r acc c l : good_comp c -> clean_go r acc (c :: l) = clean_go r (c :: acc) l.
+Proof.
+  intros Hg. destruct (good_comp_eqbs' _ Hg) as [E1 E2]. cbn [clean_go]. now rewrite E1, E2.
+Qed.
+
 (* ---------- strings and byte lists ---------- *)
 Fixpoint string_of_list (l : list ascii) : string :=
   match l with [] => EmptyString | a :: t => String a (string_of_list t) end.
@@ -268,7 +273,7 @@ Proof.
     assert (List.length (enc true (c :: acc')) <> 1%nat) as Hn.
     { intro E. apply (enc_length_rooted _ Hne) in E. discriminate. }
     pose proof (enc_true_pos (c :: acc')). lia.
-  - destruct H as (g & k & -> & Hg & ->). destruct g as [|c g']; [eauto|]. exfalso.
+  - destruct H as (g & k & -> & Hg & ->). destruct g as [|c g']; [exists k; reflexivity|]. exfalso.
     assert (List.length (enc false (repeat ".." k)) < List.length (enc false ((c :: g') ++ repeat ".." k)))%nat.
     { apply enc_length_mono; [now apply goodns_nonempty|discriminate]. }
     lia.
@@ -309,8 +314,7 @@ Proof.
   assert (("."%char :: "."%char ::
            (if Nat.ltb 0 (List.length (enc false (repeat ".." k))) then slash :: enc false (repeat ".." k)
             else enc false (repeat ".." k))) = enc false (".." :: repeat ".." k)) as Henc.
-  { simpl enc. do 2 f_equal. destruct k; simpl; [reflexivity|].
-    rewrite !app_length. simpl. reflexivity. }
+  { simpl enc. do 2 f_equal. destruct k; simpl; reflexivity. }
   rewrite Henc. split; [reflexivity|]. exists [], (S k). repeat split; auto.
 Qed.
 
@@ -330,7 +334,6 @@ Proof.
   destruct t as [|b t']; simpl; auto. destruct (Ascii.eqb b slash); [reflexivity|discriminate].
 Qed.
 
-Definition dot : ascii := "."%char.
 
 (* ---------- the loop ---------- *)
 Lemma clean_loop_spec rooted : forall fuel inp acc out dd,
@@ -354,20 +357,20 @@ Proof.
   pose proof (split_span (a :: t)) as Hsplit. rewrite (span_cons_noslash a t Ea) in Hsplit. simpl fst in Hsplit. simpl snd in Hsplit.
   rewrite Hsplit.
   pose proof (span_rest t) as Hrest. pose proof (span_length t) as Hsl.
-  destruct (Ascii.eqb a dot && at_elem_end t) eqn:Edot.
+  destruct (Ascii.eqb a "."%char && at_elem_end t) eqn:Edot.
   { (* "." *)
     apply andb_true_iff in Edot as [Ed Hend]. apply Ascii.eqb_eq in Ed. subst a.
     pose proof (proj1 (at_elem_end_span t) Hend) as He. rewrite He. simpl string_of_list.
     change (clean_go rooted acc ("." :: tailcomps (snd (span t)))) with (clean_go rooted acc (tailcomps (snd (span t)))).
     rewrite <- clean_go_tail by assumption. rewrite (at_elem_end_rest t Hend).
     apply IH; [lia|exact Hrel]. }
-  destruct (Ascii.eqb a dot && match t with b :: t2 => Ascii.eqb b dot && at_elem_end t2 | [] => false end) eqn:Edd.
+  destruct (Ascii.eqb a "."%char && match t with b :: t2 => Ascii.eqb b "."%char && at_elem_end t2 | [] => false end) eqn:Edd.
   { (* ".." *)
     apply andb_true_iff in Edd as [Ed Hrest2]. apply Ascii.eqb_eq in Ed. subst a.
     destruct t as [|b t2]; [discriminate|]. apply andb_true_iff in Hrest2 as [Eb Hend].
     apply Ascii.eqb_eq in Eb. subst b.
-    assert (Ascii.eqb dot slash = false) as Hds by reflexivity.
-    rewrite (span_cons_noslash dot t2 Hds) in *. simpl fst in *. simpl snd in *.
+    assert (Ascii.eqb "."%char slash = false) as Hds by reflexivity.
+    rewrite (span_cons_noslash "."%char t2 Hds) in *. simpl fst in *. simpl snd in *.
     pose proof (proj1 (at_elem_end_span t2) Hend) as He. rewrite He. simpl string_of_list.
     pose proof (at_elem_end_rest t2 Hend) as Hr2.
     assert (forall acc2, clean_go rooted acc2 (tailcomps (snd (span t2))) =
@@ -407,7 +410,7 @@ Proof.
       rewrite H1. simpl. auto. }
   assert (clean_go rooted acc (string_of_list e :: tailcomps (snd (span t))) =
           clean_go rooted (string_of_list e :: acc) (tailcomps (snd (span t)))) as Hpush.
-  { destruct Hge as [Hg _]. destruct (good_comp_eqbs' _ Hg) as [E1 E2]. simpl clean_go. now rewrite E1, E2. }
+  { apply clean_go_push. apply Hge. }
   rewrite Hpush.
   match goal with |- context [copy_elem (a :: t) ?o] => set (out1 := o) end.
   rewrite copy_elem_span. rewrite (span_cons_noslash a t Ea). simpl fst. simpl snd. fold e.
@@ -415,4 +418,40 @@ Proof.
   apply IH; [lia|].
   replace (rev e) with (rev (list_of_string (string_of_list e))) by now rewrite los_sol.
   subst out1. now apply rel_push.
+Qed.
+
+(* Go's path.Clean, byte by byte, computes what the component-level model computes *)
+Theorem clean_bytes_path_clean s : clean_bytes s = path_clean s.
+Proof.
+  destruct s as [|a t]; [reflexivity|].
+  unfold clean_bytes. destruct (Ascii.eqb a slash) eqn:Ea.
+  - apply Ascii.eqb_eq in Ea. subst a.
+    assert (rel true [] [slash] 1) as Hrel by (split; [reflexivity|split; [constructor|reflexivity]]).
+    destruct (clean_loop_spec true (S (String.length (String slash t))) (list_of_string t) [] [slash] 1)
+      as (acc' & Hgo & Hloop & Hne); auto.
+    { rewrite length_los. simpl. lia. }
+    rewrite sol_los in Hgo. rewrite Hloop.
+    pose proof (enc_true_pos acc') as Hpos.
+    destruct (enc true acc') as [|x l] eqn:Ee; [simpl in Hpos; lia|]. rewrite <- Ee.
+    rewrite string_of_rev_spec, append_nil_r, enc_snoc_decode by assumption.
+    unfold render', path_clean. simpl is_abs. cbv iota. unfold clean_comps. simpl is_abs. cbv iota.
+    rewrite split_on_slash_cons. change (clean_go true [] ("" :: split_on slash t)) with (clean_go true [] (split_on slash t)).
+    now rewrite Hgo.
+  - assert (rel false [] [] 0) as Hrel.
+    { split; [reflexivity|]. exists [], 0%nat. repeat split; constructor. }
+    destruct (clean_loop_spec false (S (String.length (String a t))) (list_of_string (String a t)) [] [] 0)
+      as (acc' & Hgo & Hloop & Hne); auto.
+    { rewrite length_los. lia. }
+    rewrite sol_los in Hgo. rewrite Hloop.
+    assert (is_abs (String a t) = false) as Habs by exact Ea.
+    unfold path_clean, clean_comps. rewrite Habs, Hgo.
+    destruct acc' as [|c acc''].
+    + reflexivity.
+    + assert (enc false (c :: acc'') <> []) as Hnz.
+      { intro E. apply (f_equal (@List.length _)) in E. simpl List.length at 2 in E.
+        apply (enc_length_rel _ Hne) in E. discriminate. }
+      destruct (enc false (c :: acc'')) as [|x l] eqn:Ee; [congruence|]. rewrite <- Ee.
+      rewrite string_of_rev_spec, append_nil_r, enc_snoc_decode by assumption.
+      unfold render'. destruct (rev (c :: acc'')) eqn:Er; [|reflexivity].
+      apply (f_equal (@List.length _)) in Er. rewrite rev_length in Er. discriminate.
 Qed.
